@@ -1,6 +1,7 @@
 package main
 
 import (
+	"os"
 	"fmt"
 	"sort"
 	"strings"
@@ -205,6 +206,9 @@ func oracleC04(res *Result, c *Case) {
 		return
 	} else if stripTypes(ut).String() != t0 {
 		textCulprit = "C04:text:" + firstDiffKind(field(r, "tree"), ut)
+		if os.Getenv("VERIF_DEBUG") != "" && c.NoModel {
+			fmt.Fprintf(os.Stderr, "DEBUG C04 text: %s unknown=%v\n", c.Rec.Op, c.Tags)
+		}
 		res.fail(c, "C04.text_at_unknowing", fmt.Sprintf("origin %s unknowing %s", t0, stripTypes(ut)), textCulprit)
 	}
 	// A wrapper that the intermediary does know re-computes its wire message from the
